@@ -33,14 +33,42 @@ type Problem struct {
 const PQStub = `// Package pq is a stand-in for github.com/lib/pq
 package pq
 
-import "database/sql/driver"
+import (
+	"database/sql/driver"
+	"time"
+)
+
+// NullTime as in lib/pq (deprecated there in favour of sql.NullTime, still used by sqlcrud)
+type NullTime struct {
+	Time  time.Time
+	Valid bool
+}
+
+func (nt *NullTime) Scan(value interface{}) error {
+	nt.Time, nt.Valid = value.(time.Time)
+	return nil
+}
+
+func (nt NullTime) Value() (driver.Value, error) {
+	if !nt.Valid {
+		return nil, nil
+	}
+	return nt.Time, nil
+}
 
 type (
 	Int64Array  []int64
 	Int32Array  []int32
 	StringArray []string
 	BoolArray   []bool
+	Float64Array []float64
+	Float32Array []float32
 )
+
+func (*Float64Array) Scan(src interface{}) error   { return nil }
+func (Float64Array) Value() (driver.Value, error)  { return nil, nil }
+func (*Float32Array) Scan(src interface{}) error   { return nil }
+func (Float32Array) Value() (driver.Value, error)  { return nil, nil }
 
 func (*Int64Array) Scan(src interface{}) error   { return nil }
 func (Int64Array) Value() (driver.Value, error)  { return nil, nil }
